@@ -67,7 +67,11 @@ def run(ctx: Check) -> int:
                 "methods with long/overlapping UOD commands from the main sequence and Watch/Alarm bodies, timed "
                 "Pause/Hold, Simulate (also to the value the tag has), rejected arguments, injected snippets; Stop or "
                 "Restart at a random tick, also out of a user Pause/Hold or an error pause; now and then a UOD command "
-                "from the user's command buttons (any tick, in particular between the two phases of Stop/Restart).")
+                "from the user's command buttons (any tick, in particular between the two phases of Stop/Restart); "
+                "15 %: Stop, a long-running user command while NO run is active, Start, Stop/Restart while it still "
+                "runs; 40 %: fault injection at the listener level (a listener registered before the UOD tags and the "
+                "run-log consumer raises in on_stop). Run ends are read off the engine (started flag), the delivery "
+                "of the final run log to its listener is a clause of its own.")
     streams(ctx, ["c10", "c10", "mixed"], ctx.n(500, 12000), ctx.n(3, 4), ctx.n(60, 1500), [oracle_c10], "cmdmgr")
     engine_monitor(ctx, "c10", ctx.n(500, 12000), engine_oracle)
     ctx.exhaustive = False
